@@ -81,6 +81,14 @@ TraceNext ==
 
 TraceSpec == TraceInit /\ [][TraceNext]_tvars
 
+\* the action properties of ManagedPool on the observed behaviour; the step that starts the next run
+\* (all variables back to their initial values) is not a step of the pool
+NotReset == l <= Len(Rec) /\ Rec[l].act # "Reset"
+TAct_C06c == [][NotReset => Step_C06c]_tvars
+TAct_C07a == [][NotReset => Step_C07a]_tvars
+TAct_C07b == [][NotReset => Step_C07b]_tvars
+TAct_C08b == [][NotReset => Step_C08b]_tvars
+
 \* every event was consumed (rejected runs are reported by the REJECTED lines)
 TraceAccepted == TLCGet("stats").diameter - 1 = Len(Rec)
 =============================================================================
